@@ -1406,7 +1406,15 @@ pub fn run(rng: &mut R, out: &mut Out) {
         if base.n_issuances > 0 { out.count("base.with_issuance"); }
         if base.n_conf_utxos > 0 { out.count("base.with_conf_utxo"); }
         if base.n_conf_utxos == 0 { out.count("base.all_explicit_utxos"); }
-        let mk = markable(&base.tx);
+        let mut mk = markable(&base.tx);
+        // sometimes one positive-value output is a burn / data carrier (OP_RETURN, or another script without an
+        // address) that is never marked: it stays explicit and still counts in the balance
+        let mut base = base;
+        if mk.len() >= 2 && rng.gen_bool(0.35) {
+            let burn = mk.remove(rng.gen_range(0..mk.len()));
+            base.tx.output[burn].script_pubkey = if rng.gen_bool(0.7) { op_return_script(rng) } else { loop { let s = odd_script(rng); if !s.is_empty() && Address::from_script(&s, None, &AddressParams::ELEMENTS).is_none() { break s; } } };
+            out.count("base.with_positive_value_unaddressable_output");
+        }
         let subs = subsets(rng, &mk, if thorough { 31 } else { 15 });
         for which in subs {
             if done >= budget { break; }
